@@ -20,10 +20,16 @@ Trusted here: the recording wrappers, the dump of extracted objects (token), the
 fetch/extract/format themselves are NOT trusted to satisfy anything: the model only replays their
 answers; the theorems state which hypotheses on them the invariant needs.
 
-CODE_FIXED: False = the code as it is (finding F12: pop_state/set_state leave the cached python
-object in place); the model runs with fixed=false and histories with F12's signature are outside
-in_domain.  After the repair flip it to True: the model runs with fixed=true and every valid
-history is in the domain.
+CODE_FIXED: True = the code as it is (F12 repaired in /repo e397477: pop_state/set_state invalidate the
+cached python object); the model runs with fixed=true and every valid history is in the domain.  False
+replays the unrepaired pop_state/set_state (model with fixed=false; histories with F12's signature are
+then outside in_domain unless F12 is listed open).
+
+push_state / set_state copy with copy.deepcopy (F23 repaired in /repo d2d0b2d; before, they used a
+self-fetch, which is not the identity): they call no library function, so neither the recorded fetch
+table nor the model has an entry/call for them.  The prop oracle keeps a shadow stack (text and
+extraction of the working tree at every push) and compares it after the matching pop_state, for every
+history in the domain.
 """
 import contextlib
 import io
@@ -49,11 +55,6 @@ def _listed_open(fid):
 
 
 F12_LISTED_OPEN = _listed_open("F12")
-F23_LISTED_OPEN = _listed_open("F23")
-# F23 (found by this check): scope.format emits no template for a .multiple DEFINITION, and push_state copies the
-# working tree with working_phil.fetch(), which takes the first occurrence as the master's template: after
-# update_from_python(p) with p.m == [3, 5], push_state(); pop_state() restores m == [5].  Set to True once repaired.
-F23_FIXED = False
 
 # ----------------------------------------------------------------------------- recording of library calls
 class _Log:
@@ -353,6 +354,11 @@ def gen_history(rng, tier, params, scopes, maxlen):
                 depth_guess += 1
         elif k == "set":
             ops.append(["set", rng.randint(0, max(0, depth_guess))])
+            mu = [p for p in params if p[3] or p[4]]
+            if mu and rng.random() < 0.5:
+                # an edit of a .multiple object right after set_state: it deletes objects of the working tree in place, which must
+                # not reach the state that stays on the stack
+                ops.append(["update", gen_edit(rng, mu), None, True])
         elif k == "pop":
             # mostly only when the stack is (probably) non-empty; a few on an empty stack
             if depth_guess > 0 or rng.random() < 0.15:
@@ -382,27 +388,6 @@ def risky_f12(ops):
         elif k in ("get", "ufp_none") and risky:
             return i
     return None
-
-
-def has_multi_def(case):
-    return any(p[3] for p in case["P"])
-
-
-def risky_f17(case):
-    """Signature of finding F23 on the case alone: the master has a .multiple definition and the history has an
-    update_from_python, later a push_state / update_from_python (both stack working_phil.fetch()), later a pop_state."""
-    if not has_multi_def(case):
-        return False
-    stage = 0
-    for op in case["ops"]:
-        k = op[0]
-        if stage == 0 and k in ("ufp_mut", "ufp_none"):
-            stage = 1
-        elif stage == 1 and k in ("push", "ufp_mut", "ufp_none"):
-            stage = 2
-        elif stage == 2 and k == "pop":
-            return True
-    return False
 
 
 # ----------------------------------------------------------------------------- the stream
@@ -443,9 +428,29 @@ class Histories(Stream):
              "ops": [["update", "m = 1\nm = 2\ng { k = 5 }\ng { k = 6 }", None, True], ["get"], ["update", "m = 7", None, True],
                      ["update", "m = 7", None, True], ["get"], ["ufp_mut", ["a"], 9], ["get"], ["pop"], ["update", "a = 3", None, True],
                      ["get"], ["lookup", "g.k"], ["lookup", "m"]]},
-            # F23 witness: push_state after update_from_python loses the first value of a .multiple definition
+            # F23 witness (repaired in /repo d2d0b2d): the self-fetch of push_state after update_from_python lost the
+            # first value of a .multiple definition (the working tree came from master.format: no template entry)
             {"m": "m = None\n  .type = int\n  .multiple = True\n", "P": [["m", "int", [], True, False]], "S": [], "v": True,
              "ops": [["update", "m = 3\nm = 5", None, True], ["get"], ["ufp_mut", ["m"], [3, 5]], ["push"], ["pop"], ["get"]]},
+            # same through the push_state inside update_from_python, and through set_state
+            {"m": "m = None\n  .type = int\n  .multiple = True\n", "P": [["m", "int", [], True, False]], "S": [], "v": True,
+             "ops": [["update", "m = 3\nm = 5", None, True], ["get"], ["ufp_mut", ["m"], [3, 5]], ["get"], ["ufp_mut", ["m"], [7]],
+                     ["pop"], ["get"], ["set", 0], ["get"], ["push"], ["update", "m = 1", None, True], ["pop"], ["get"]]},
+            # F23, second mechanism: the self-fetch dropped a deprecated definition set to a non-default value
+            {"m": "d = 1\n  .type = int\n  .deprecated = True\n", "P": [["d", "int", [], False, False]], "S": [], "v": True,
+             "ops": [["update", "d = 2", None, True], ["push"], ["update", "d = 3", None, True], ["pop"], ["get"]]},
+            {"m": "a = 1\n  .type = int\nd = 1\n  .type = int\n  .deprecated = True\n",
+             "P": [["a", "int", [], False, False], ["d", "int", [], False, False]], "S": [], "v": True,
+             "ops": [["update", "d = 2", None, True], ["get"], ["push"], ["update", "a = 5", None, True], ["set", 0], ["get"],
+                     ["update", "d = 7", None, True], ["pop"], ["get"], ["lookup", "d"]]},
+            # set_state makes a saved state current WITHOUT removing it from the stack; an edit of a .multiple definition
+            # (which deletes objects of the working tree in place) must not reach the saved copy
+            {"m": m2, "P": P2, "S": S2, "v": True,
+             "ops": [["update", "m = 1\nm = 2", None, True], ["get"], ["push"], ["update", "a = 7", None, True], ["set", 0],
+                     ["update", "m = 3", None, True], ["get"], ["pop"], ["get"], ["lookup", "m"]]},
+            {"m": m2, "P": P2, "S": S2, "v": True,
+             "ops": [["update", "g { k = 5 }\ng { k = 6 }", None, True], ["push"], ["push"], ["set", 1],
+                     ["update", "g { k = 9 }", None, True], ["set", 0], ["get"], ["pop"], ["get"], ["pop"], ["get"]]},
             # refused merge after the multiples were deleted (outside the domain: the edit is not valid)
             {"m": m2, "P": P2, "S": S2, "v": False,
              "ops": [["update", "m = 7", None, True], ["get"], ["merge_s", "m = 3\ns.c = zzz", None, True], ["get"]]},
@@ -759,8 +764,6 @@ class Histories(Stream):
             return False          # refused / out-of-domain edits, reset_scope, erase_scope: correspondence only
         if not CODE_FIXED and not F12_LISTED_OPEN and risky_f12(case["ops"]) is not None:
             return False          # finding F12 (stale cache after pop_state/set_state), see match_finding
-        if not F23_FIXED and not F23_LISTED_OPEN and risky_f17(case):
-            return False          # finding F23 (push_state after update_from_python loses a .multiple definition's first value)
         return True
 
     def key(self, case, o):
@@ -803,16 +806,6 @@ def match_finding(finding, failure):
     """F12: the failing step is a get_python_object after a successful pop_state/set_state with no
     update/merge_phil in between (stale cache after pop_state/set_state)."""
     what = failure.get("what", "")
-    if finding.get("id") == "F23":
-        # pop_state restored something else than what was current at the matching push, the master has a
-        # .multiple definition and an update_from_python precedes (working tree = master.format(...) was stacked)
-        if not what.startswith("pop:") or not has_multi_def(failure["case"]):
-            return False
-        try:
-            k = int(what.split()[2])
-        except Exception:  # noqa
-            return False
-        return any(op[0] in ("ufp_mut", "ufp_none") for op in failure["case"]["ops"][:k])
     if finding.get("id") != "F12":
         return False
     if not what.startswith("handout:"):
@@ -846,9 +839,10 @@ SPEC = {
                 "Oracles (not modelled, replayed from the recorded real calls, keyed by argument content): scope.fetch, scope.extract, scope.format; "
                 "freephil.parse (operations carry parsed trees); extracted python objects are opaque tokens (canonical dump)",
                 "Theorem hypotheses on the oracles: H_fmt (extract (format m p) = p on round-trip objects, C09), H_ext_ok (extracted objects are "
-                "round-trip objects), H_tmpl (is_template of a fetch result is -1, 0 or 1); C20_pop_restores_same: self-fetch identity t.fetch() = t "
-                "(C07-like; the library VIOLATES it for master.format results with a .multiple definition: finding F23); C20_update_twice: H_refetch, "
-                "re-fetch stability of the updated tree (C07-like; no counterexample seen); both are evaluated on the implementation by prop",
+                "round-trip objects), H_tmpl (is_template of a fetch result is -1, 0 or 1; set-up only); C20_update_twice: H_refetch, re-fetch stability of "
+                "the updated tree (C07-like; no counterexample seen), evaluated on the implementation by prop.  C20_pop_restores has no hypothesis on "
+                "the library (push_state/set_state copy by value since /repo d2d0b2d, F23 repaired); prop evaluates it on the implementation with a "
+                "shadow stack (text + extraction at every push, compared after the matching pop)",
                 "The theorems quantify over histories in which no step raised after it had already modified the index (run_ok); a merge_phil whose "
                 "fetch raises after delete_phil_objects has pruned the working tree leaves index and cache stale (reported, outside the domain: refused edit)",
                 "Object identity is modelled by position in the tree the index was built from; aliasing between the handed-out python object and "
@@ -857,8 +851,6 @@ SPEC = {
                 "of the real library (no claim about them in this check beyond the prop oracle: pop restores text, same update twice is idempotent)",
     "assumptions": ["masters are fully typed and alias-free; text restricted to code points < 256",
                     "CODE_FIXED=%s (model replays %s pop_state/set_state); histories with the signature of F12 are %s the domain"
-                    % (CODE_FIXED, "repaired" if CODE_FIXED else "unrepaired (F12)", "inside" if (CODE_FIXED or F12_LISTED_OPEN) else "outside"),
-                    "F23_FIXED=%s: histories with the signature of F23 (update_from_python, later push_state/update_from_python, later pop_state, "
-                    "master with a .multiple definition) are %s the domain" % (F23_FIXED, "inside" if (F23_FIXED or F23_LISTED_OPEN) else "outside")],
+                    % (CODE_FIXED, "repaired" if CODE_FIXED else "unrepaired (F12)", "inside" if (CODE_FIXED or F12_LISTED_OPEN) else "outside")],
     "match_finding": match_finding,
 }
